@@ -19,13 +19,19 @@ static const double CTOL = 8.0;         // allowed rounding units
 static const double DFLOOR = 1e-305;    // results below this are compared absolutely (gradual underflow is not held against the library)
 
 static bool g_thorough = false;
-// array lengths: every 1..32, 100, 1000 (thorough: every 1..256, 1000)
+// array lengths: every 1..32, 100, 1000 (thorough: every 1..1024, 4096, 10000) and the big sizes 70000, 200000 (beyond 65536)
 static const std::vector<int>& lengths() {
     static std::vector<int> v;
     if (v.empty()) {
-        for (int i = 1; i <= (g_thorough ? 256 : 32); ++i) v.push_back(i);
+        for (int i = 1; i <= (g_thorough ? 1024 : 32); ++i) v.push_back(i);
         if (!g_thorough) v.push_back(100);
         v.push_back(1000);
+        if (g_thorough) {
+            v.push_back(4096);
+            v.push_back(10000);
+        }
+        v.push_back(70000);
+        v.push_back(200000);
     }
     return v;
 }
@@ -65,9 +71,19 @@ static std::vector<T> cyc(const std::vector<T>& v, int L) {   // length-L array 
 
 // ------------------------------------------------------------------------------------------- value grids
 static const double MAGS[11] = {1e-100, 1e-50, 1e-10, 0.1, 0.5, 1, 2, 10, 1e10, 1e50, 1e100};
+// thorough: every 2 decades 1e-100..1e100, a cluster around 1, the libm regime changes (20, 355, 400, 709, 1e3) and neighbours of 1
+static std::vector<double> mags_thorough() {
+    std::vector<double> m;
+    for (int e = -100; e <= 100; e += 2) m.push_back(std::pow(10.0, e));
+    for (double v : {0.01, 0.1, 0.3, 0.5, 0.75, 0.9, 0.9999999999999999, 1.0000000000000002, 1.1, 1.5, 2.0, 3.0, 7.0, 20.0, 100.0, 355.0, 400.0, 709.0, 1e3}) m.push_back(v);
+    std::sort(m.begin(), m.end());
+    m.erase(std::unique(m.begin(), m.end()), m.end());
+    return m;
+}
+static std::vector<double> mags() { return g_thorough ? mags_thorough() : std::vector<double>(MAGS, MAGS + 11); }
 static std::vector<double> real_grid() {
     std::vector<double> g = {0.0, -0.0};
-    for (double m : MAGS) {
+    for (double m : mags()) {
         g.push_back(m);
         g.push_back(-m);
     }
@@ -92,8 +108,11 @@ static std::vector<cmplx_t> cmplx_grid() {   // RG x RG: axes, diagonals, +-1, +
     for (double a : r)
         for (double b : r) g.push_back(cmplx_t(a, b));
     // generic arguments: every multiple of pi/24 at three radii; points next to the branch cut and next to the imaginary axis
-    for (double rad : {0.3, 1.0, 7.0})
-        for (int k = 0; k < 48; ++k) g.push_back(cmplx_t(rad * std::cos(k * 3.141592653589793 / 24), rad * std::sin(k * 3.141592653589793 / 24)));
+    // (thorough: every multiple of pi/96 at seven radii)
+    const std::vector<double> radii = g_thorough ? std::vector<double>{1e-40, 1e-3, 0.3, 1.0, 7.0, 1e4, 1e30} : std::vector<double>{0.3, 1.0, 7.0};
+    const int NA = g_thorough ? 192 : 48;
+    for (double rad : radii)
+        for (int k = 0; k < NA; ++k) g.push_back(cmplx_t(rad * std::cos(k * 2 * 3.141592653589793 / NA), rad * std::sin(k * 2 * 3.141592653589793 / NA)));
     for (double t : {1e-300, 5e-324, 1e-17})
         for (double sg : {1.0, -1.0}) {
             g.push_back(cmplx_t(-1, sg * t));
@@ -107,9 +126,17 @@ static std::vector<int> exps_int() {
     for (int k = -8; k <= 8; ++k) e.push_back(k);
     return e;
 }
-static std::vector<double> exps_half() {   // every integer and half-integer in [-8, 8]
+static std::vector<double> exps_half() {   // every integer and half-integer in [-8, 8]; thorough: every eighth and +-1/3, +-pi/2, +-7.9
     std::vector<double> e;
-    for (int k = -16; k <= 16; ++k) e.push_back(k * 0.5);
+    if (!g_thorough) {
+        for (int k = -16; k <= 16; ++k) e.push_back(k * 0.5);
+    } else {
+        for (int k = -64; k <= 64; ++k) e.push_back(k * 0.125);
+        for (double v : {1.0 / 3, 1.5707963267948966, 7.9, 0.1}) {
+            e.push_back(v);
+            e.push_back(-v);
+        }
+    }
     return e;
 }
 
@@ -693,9 +720,9 @@ static void run_power(Ctx& ctx) {
 }
 
 // ------------------------------------------------------------------------------------------- reductions
-static const int NLET = 14;
+static const int NLET = 15;
 static const char* LET[NLET] = {"index", "constant", "alternating", "two-level", "lcg", "max-tie-ends", "min-tie-ends", "neg-index",
-                                "zeros+", "zeros-", "zeros-mixed", "one-nonzero-first", "one-nonzero-mid", "one-nonzero-last"};
+                                "zeros+", "zeros-", "zeros-mixed", "one-nonzero-first", "one-nonzero-mid", "one-nonzero-last", "late-extremes"};
 static double rlet(int l, int i, int n) {
     switch (l) {
     case 0: return i + 1;
@@ -711,7 +738,8 @@ static double rlet(int l, int i, int n) {
     case 10: return (i % 2) ? -0.0 : 0.0;
     case 11: return i == 0 ? -2.5 : 0.0;
     case 12: return i == n / 2 ? -2.5 : ((i % 2) ? -0.0 : 0.0);
-    default: return i == n - 1 ? -2.5 : -0.0;
+    case 13: return i == n - 1 ? -2.5 : -0.0;
+    default: return i == n - 3 ? 99.0 : (i == n - 2 ? -99.0 : (i % 5) - 2.0);   // extremes near the end (beyond index 65536 for the big sizes)
     }
 }
 static cmplx_t clet(int l, int i, int n) {   // moduli are distinct unless the elements are identical (max/min by modulus well defined)
@@ -729,7 +757,8 @@ static cmplx_t clet(int l, int i, int n) {   // moduli are distinct unless the e
     case 10: return (i % 2) ? cmplx_t(-0.0, 0.0) : cmplx_t(0.0, -0.0);
     case 11: return i == 0 ? cmplx_t(1.5, -2) : cmplx_t(0.0, 0.0);
     case 12: return i == n / 2 ? cmplx_t(1.5, -2) : ((i % 2) ? cmplx_t(-0.0, 0.0) : cmplx_t(0.0, -0.0));
-    default: return i == n - 1 ? cmplx_t(1.5, -2) : cmplx_t(-0.0, -0.0);
+    case 13: return i == n - 1 ? cmplx_t(1.5, -2) : cmplx_t(-0.0, -0.0);
+    default: return i == n - 3 ? cmplx_t(99, -99) : (i == n - 2 ? cmplx_t(0.01, 0) : cmplx_t((i % 5) + 1.0, 1));
     }
 }
 
@@ -915,15 +944,17 @@ static void run_reductions(Ctx& ctx) {
                     const cmplx_t pp = cplx ? d::peak2peak(xc) : cmplx_t(d::peak2peak(xr), 0);
                     bool okpp = false;
                     cld ref0 = 0;
-                    for (int i = 0; i < n && !okpp; ++i) {
-                        if (key(i) != kmax) continue;
-                        for (int j = 0; j < n && !okpp; ++j) {
-                            if (key(j) != kmin) continue;
-                            const cld a = x[(size_t)i], b = x[(size_t)j];
+                    std::vector<cld> cmax, cmin;   // distinct maximal / minimal values (bounded: the search must stay cheap for 200000 tied elements)
+                    for (int i = 0; i < n; ++i) {
+                        if (key(i) == kmax && cmax.size() < 16 && std::find(cmax.begin(), cmax.end(), x[(size_t)i]) == cmax.end()) cmax.push_back(x[(size_t)i]);
+                        if (key(i) == kmin && cmin.size() < 16 && std::find(cmin.begin(), cmin.end(), x[(size_t)i]) == cmin.end()) cmin.push_back(x[(size_t)i]);
+                    }
+                    for (const cld& a : cmax)
+                        for (const cld& b : cmin) {
+                            if (okpp) break;
                             ref0 = a - b;
                             okpp = (double)std::abs(cld(pp.re, pp.im) - ref0) <= CTOL * EPS * (double)(std::abs(a) + std::abs(b));
                         }
-                    }
                     if (!okpp) ctx.fail("peak2peak", "peak2peak=" + cs(pp), cs(ref0));
                     ctx.note(std::string("minmax letter ") + LET[l]);
                 }
@@ -954,11 +985,13 @@ bool is_zero_elem<arr_cmplx>(const arr_cmplx& a, int i) { return a[i].re == 0 &&
 static bool same_elem(double a, double b) { return biteq(a, b); }
 static bool same_elem(cmplx_t a, cmplx_t b) { return biteq(a.re, b.re) && biteq(a.im, b.im); }
 
+static int B(int quick, int thorough) { return g_thorough ? thorough : quick; }   // box bound per tier
+
 template<class A>
 static void shapes_typed(Ctx& ctx, const char* ty) {
     // upsample / downsample: every (len <= 12, factor <= 12, phase < min(factor, len)); round trip
-    for (int len = 1; len <= 12; ++len)
-        for (int f = 1; f <= 12; ++f)
+    for (int len = 1; len <= B(12, 32); ++len)
+        for (int f = 1; f <= B(12, 32); ++f)
             for (int ph = 0; ph < std::min(f, len); ++ph) {
                 if (!ctx.take("shape.updown", P().kv("type", ty).kv("len", len).kv("factor", f).kv("phase", ph))) continue;
                 if (f >= 2 && len >= 2) ctx.nontrivial();
@@ -981,8 +1014,8 @@ static void shapes_typed(Ctx& ctx, const char* ty) {
                 }
             }
     // repelem (len <= 6, n <= 5), flip (len <= 12), zeropad (len <= 8, pad <= 8)
-    for (int len = 1; len <= 6; ++len)
-        for (int n = 0; n <= 5; ++n) {
+    for (int len = 1; len <= B(6, 16); ++len)
+        for (int n = 0; n <= B(5, 12); ++n) {
             if (!ctx.take("shape.repelem", P().kv("type", ty).kv("len", len).kv("n", n))) continue;
             if (len >= 2 && n >= 2) ctx.nontrivial();
             const A x = tagged<A>(len, 3);
@@ -991,7 +1024,7 @@ static void shapes_typed(Ctx& ctx, const char* ty) {
             for (int k = 0; ok && k < r.size(); ++k) ok = same_elem(r[k], x[k / n]);
             if (!ok) ctx.fail("repelem", fmt("repelem wrong (size %d)", r.size()), fmt("size %d, each element %d times", len * n, n));
         }
-    for (int len = 0; len <= 12; ++len) {
+    for (int len = 0; len <= B(12, 64); ++len) {
         if (!ctx.take("shape.flip", P().kv("type", ty).kv("len", len))) continue;
         if (len >= 2) ctx.nontrivial();
         const A x = tagged<A>(len, 1);
@@ -1000,8 +1033,8 @@ static void shapes_typed(Ctx& ctx, const char* ty) {
         for (int k = 0; ok && k < len; ++k) ok = same_elem(r[k], x[len - 1 - k]);
         if (!ok) ctx.fail("flip", fmt("flip wrong (size %d)", r.size()), "reversed order");
     }
-    for (int len = 0; len <= 8; ++len)
-        for (int pad = 0; pad <= 8; ++pad) {
+    for (int len = 0; len <= B(8, 24); ++len)
+        for (int pad = 0; pad <= B(8, 24); ++pad) {
             if (!ctx.take("shape.zeropad", P().kv("type", ty).kv("len", len).kv("n", len + pad))) continue;
             if (len >= 1 && pad >= 1) ctx.nontrivial();
             const A x = tagged<A>(len, 2);
@@ -1010,6 +1043,70 @@ static void shapes_typed(Ctx& ctx, const char* ty) {
             for (int k = 0; ok && k < r.size(); ++k) ok = k < len ? same_elem(r[k], x[k]) : is_zero_elem(r, k);
             if (!ok) ctx.fail("zeropad", fmt("zeropad wrong (size %d)", r.size()), fmt("x followed by %d zeros", pad));
         }
+    // delayseq: every (N <= 10, d in [-12, 12]) (thorough N <= 32, d in [-40, 40])
+    auto delay_ok = [](const A& x, const A& r, int dl) {
+        const int N = x.size();
+        bool ok = r.size() == N;
+        for (int i = 0; ok && i < N; ++i) {
+            const long long src = (long long)i - dl;
+            ok = (src >= 0 && src < N) ? same_elem(r[i], x[(int)src]) : is_zero_elem(r, i);
+        }
+        return ok;
+    };
+    for (int N = 1; N <= B(10, 32); ++N)
+        for (int dl = -B(12, 40); dl <= B(12, 40); ++dl) {
+            if (!ctx.take("shape.delayseq", P().kv("type", ty).kv("N", N).kv("delay", dl))) continue;
+            if (dl != 0 && std::abs(dl) < N) ctx.nontrivial();
+            const A x = tagged<A>(N, 0);
+            if (!delay_ok(x, d::delayseq(x, dl), dl)) ctx.fail("delayseq", fmt("delayseq(N=%d, delay=%d) wrong", N, dl), "x shifted by delay, zero filled");
+        }
+    // ---- big shapes: element counts beyond 65536
+    {
+        if (ctx.take("shape.big", P().kv("type", ty).kv("what", "upsample/downsample 70000 x3 phase 1"))) {
+            ctx.nontrivial();
+            const A x = tagged<A>(70000, 0);
+            const A u = d::upsample(x, 3, 1);
+            bool ok = u.size() == 210000;
+            for (int k = 0; ok && k < u.size(); ++k) ok = (k % 3 == 1) ? same_elem(u[k], x[k / 3]) : is_zero_elem(u, k);
+            if (!ok) ctx.fail("upsample", fmt("upsample(70000,3,1) wrong (size %d)", u.size()), "size 210000, x[i] at 3i+1");
+            if (u.size() == 210000 && !bitsame(d::downsample(u, 3, 1), x)) ctx.fail("upsample/downsample", "downsample(upsample(x,3,1),3,1) != x (70000)", "x");
+        }
+        if (ctx.take("shape.big", P().kv("type", ty).kv("what", "downsample 200000 /3 phase 2"))) {
+            ctx.nontrivial();
+            const A x = tagged<A>(200000, 0);
+            const A dn = d::downsample(x, 3, 2);
+            bool ok = dn.size() == 66666;
+            for (int k = 0; ok && k < dn.size(); ++k) ok = same_elem(dn[k], x[2 + 3 * k]);
+            if (!ok) ctx.fail("downsample", fmt("downsample(200000,3,2) wrong (size %d)", dn.size()), "66666 elements x[2+3k]");
+        }
+        if (ctx.take("shape.big", P().kv("type", ty).kv("what", "repelem 70000 x3"))) {
+            ctx.nontrivial();
+            const A x = tagged<A>(70000, 3);
+            const A r = d::repelem(x, 3);
+            bool ok = r.size() == 210000;
+            for (int k = 0; ok && k < r.size(); ++k) ok = same_elem(r[k], x[k / 3]);
+            if (!ok) ctx.fail("repelem", fmt("repelem(70000,3) wrong (size %d)", r.size()), "210000 elements");
+        }
+        if (ctx.take("shape.big", P().kv("type", ty).kv("what", "flip 200000, zeropad 70000->200000"))) {
+            ctx.nontrivial();
+            const A x = tagged<A>(200000, 1);
+            const A r = d::flip(x);
+            bool ok = r.size() == 200000;
+            for (int k = 0; ok && k < 200000; ++k) ok = same_elem(r[k], x[199999 - k]);
+            if (!ok) ctx.fail("flip", "flip(200000) wrong", "reversed order");
+            const A y = tagged<A>(70000, 2);
+            const A z = d::zeropad(y, 200000);
+            ok = z.size() == 200000;
+            for (int k = 0; ok && k < 200000; ++k) ok = k < 70000 ? same_elem(z[k], y[k]) : is_zero_elem(z, k);
+            if (!ok) ctx.fail("zeropad", "zeropad(70000 -> 200000) wrong", "x followed by 130000 zeros");
+        }
+        for (int dl : {1, 65536, 70000, -65537, 199999, -200000}) {
+            if (!ctx.take("shape.big", P().kv("type", ty).kv("what", "delayseq 200000").kv("delay", dl))) continue;
+            ctx.nontrivial();
+            const A x = tagged<A>(200000, 0);
+            if (!delay_ok(x, d::delayseq(x, dl), dl)) ctx.fail("delayseq", fmt("delayseq(N=200000, delay=%d) wrong", dl), "x shifted by delay, zero filled");
+        }
+    }
 }
 
 // integer arange: start + k*step for every k >= 0 strictly before stop
@@ -1058,24 +1155,10 @@ static ArOut arange_int_one(F call, int a, int b, int s) {
 static void run_shapes(Ctx& ctx) {
     shapes_typed<arr_real>(ctx, "real");
     shapes_typed<arr_cmplx>(ctx, "cmplx");
-    // delayseq (real arrays only: the complex instantiation does not compile, DESIGN F26): every (N <= 10, d in [-12, 12])
-    for (int N = 1; N <= 10; ++N)
-        for (int dl = -12; dl <= 12; ++dl) {
-            if (!ctx.take("shape.delayseq", P().kv("N", N).kv("delay", dl))) continue;
-            if (dl != 0 && std::abs(dl) < N) ctx.nontrivial();
-            const arr_real x = tagged<arr_real>(N, 0);
-            const arr_real r = d::delayseq(x, dl);
-            bool ok = r.size() == N;
-            for (int i = 0; ok && i < N; ++i) {
-                const int src = i - dl;
-                ok = (src >= 0 && src < N) ? biteq(r[i], x[src]) : r[i] == 0;
-            }
-            if (!ok) ctx.fail("delayseq", "delayseq=" + show(r), "x shifted by delay, zero filled");
-        }
     // linspace: n = 1..100 x 5 endpoint pairs; element i = x1 + i (x2-x1)/(n-1) within 8 eps max(|x1|,|x2|); n = 1 -> {x2} (MATLAB) or {x1}
     {
         const double ends[5][2] = {{0, 1}, {-1, 1}, {5, -3}, {0.1, 0.7}, {-1e6, 1e-3}};
-        for (int n = 1; n <= 100; ++n)
+        for (int n = 1; n <= B(100, 400); ++n)
             for (int e = 0; e < 5; ++e) {
                 if (!ctx.take("shape.linspace", P().kv("n", n).kv("x1", ends[e][0]).kv("x2", ends[e][1]))) continue;
                 if (n >= 3) ctx.nontrivial();
@@ -1102,13 +1185,14 @@ static void run_shapes(Ctx& ctx) {
     }
     // integer arange: every (start, stop, step) in [-12,12]^3, step != 0; a case is a (start, step) block over all stops and
     // reports the first failure of each class
-    for (int a = -12; a <= 12; ++a)
-        for (int s = -12; s <= 12; ++s) {
+    const int AB = B(12, 40);
+    for (int a = -AB; a <= AB; ++a)
+        for (int s = -AB; s <= AB; ++s) {
             if (s == 0) continue;
             if (!ctx.take("shape.arange.int", P().kv("start", a).kv("step", s))) continue;
             ctx.nontrivial();
             std::set<std::string> seen;
-            for (int b = -12; b <= 12; ++b) {
+            for (int b = -AB; b <= AB; ++b) {
                 ArOut o = s == 1 && (b & 1) ? arange_int_one([&] { return d::arange(a, b); }, a, b, s) : arange_int_one([&] { return d::arange(a, b, s); }, a, b, s);
                 const auto ref = arange_ref(a, b, s);
                 ctx.note(ref.empty() ? "arange(int) expected empty" : (((b - a) % s) ? "arange(int) count not integral" : "arange(int) count integral"));
@@ -1116,7 +1200,7 @@ static void run_shapes(Ctx& ctx) {
                     ctx.fail("arange", fmt("arange(%d,%d,%d)=%s", a, b, s, o.obs.c_str()), show(ref), P().kv("cls", o.cls).kv("stop", b));
             }
         }
-    for (int b = -12; b <= 12; ++b) {
+    for (int b = -AB; b <= AB; ++b) {
         if (!ctx.take("shape.arange.int1", P().kv("stop", b))) continue;
         if (b >= 2) ctx.nontrivial();
         ArOut o = arange_int_one([&] { return d::arange(b); }, 0, b, 1);
@@ -1127,7 +1211,7 @@ static void run_shapes(Ctx& ctx) {
         const double steps[6] = {0.25, 0.5, 1.5, -0.75, 0.125, -2.5}, starts[4] = {-1, 0, 0.75, 2};
         for (double st : starts)
             for (double sp : steps)
-                for (int cnt = 0; cnt <= 20; ++cnt) {
+                for (int cnt = 0; cnt <= B(20, 64); ++cnt) {
                     if (!ctx.take("shape.arange.frac", P().kv("start", st).kv("step", sp).kv("count", cnt))) continue;
                     if (cnt >= 2) ctx.nontrivial();
                     const double stop = st + cnt * sp;   // exact
@@ -1154,12 +1238,44 @@ static void run_shapes(Ctx& ctx) {
                         if (!ok) ctx.fail("arange", fmt("arange<%s>(%.17g,%.17g,%.17g)=%s", names[k], st, stop, sp, show(rs[k]).c_str()), fmt("%d elements start + i*step", cnt), P().kv("overload", names[k]));
                     }
                 }
-        for (int cnt = 0; cnt <= 20; ++cnt) {
+        for (int cnt = 0; cnt <= B(20, 64); ++cnt) {
             if (!ctx.take("shape.arange.frac1", P().kv("stop", cnt))) continue;
             const arr_real r = d::arange((double)cnt);
             bool ok = r.size() == cnt;
             for (int i = 0; ok && i < cnt; ++i) ok = r[i] == i;
             if (!ok) ctx.fail("arange", fmt("arange(%d.0)=%s", cnt, show(r).c_str()), fmt("0..%d", cnt - 1));
+        }
+    }
+    // ---- big generators: counts beyond 65536
+    for (int n : {65537, 70001, 200000})
+        for (int e = 0; e < 2; ++e) {
+            const double x1 = e == 0 ? 0.0 : -1e6, x2 = e == 0 ? 1.0 : 1e-3;
+            if (!ctx.take("shape.big", P().kv("type", "real").kv("what", "linspace").kv("n", n).kv("x1", x1).kv("x2", x2))) continue;
+            ctx.nontrivial();
+            const arr_real r = d::linspace(x1, x2, (size_t)n);
+            if (r.size() != n) {
+                ctx.fail("linspace", fmt("size %d", r.size()), fmt("%d", n));
+                continue;
+            }
+            const double sc = std::max(std::fabs(x1), std::fabs(x2));
+            for (int i = 0; i < n; ++i) {
+                const ld ref = (ld)x1 + (ld)i * ((ld)x2 - (ld)x1) / (ld)(n - 1);
+                const double err = (double)fabsl((ld)r[i] - ref);
+                ctx.worst("linspace (big n) err/(eps*max|x|)", err / (EPS * sc));
+                if (!(err <= CTOL * EPS * sc)) {
+                    ctx.fail("linspace", fmt("linspace[%d]=%.17g (n=%d)", i, r[i], n), fmt("%.20Lg", ref), P().kv("i", i));
+                    break;
+                }
+            }
+        }
+    {
+        const int big[4][3] = {{0, 200000, 1}, {0, 200000, 3}, {-70000, 70000, 2}, {100000, -100000, -1}};
+        for (auto& t : big) {
+            if (!ctx.take("shape.big", P().kv("type", "real").kv("what", "arange int").kv("start", t[0]).kv("stop", t[1]).kv("step", t[2]))) continue;
+            ctx.nontrivial();
+            const int a = t[0], b = t[1], st = t[2];
+            ArOut o = arange_int_one([&] { return d::arange(a, b, st); }, a, b, st);
+            if (!o.ok) ctx.fail("arange", fmt("arange(%d,%d,%d) wrong: %s", a, b, st, o.obs.substr(0, 200).c_str()), "start + k*step before stop", P().kv("cls", o.cls));
         }
     }
     // long fractional arange with non-dyadic steps: element k = start + k*step (the mathematical value for the double
@@ -1168,8 +1284,8 @@ static void run_shapes(Ctx& ctx) {
     // to rounding; where the library's count differs from `count` by one the case is ambiguous and only counted.
     {
         const double steps[6] = {0.1, 0.01, 0.6, 1.0 / 3, -0.7, 1e-3}, starts[4] = {0, -5, 2.5, 1e6};
-        std::vector<int> counts = {100, 1000, 10000};
-        if (g_thorough) counts.push_back(100000);
+        std::vector<int> counts = {100, 1000, 10000, 100000};
+        if (g_thorough) counts.push_back(1000000);
         for (double st : starts)
             for (double sp : steps)
                 for (int cnt : counts) {
